@@ -610,6 +610,40 @@ impl StateInConstruction {
         }
     }
 
+    // Check the transitions as given by the caller, before cleanup rewrites them.
+    // - overlapping labels that lead to the same successor are merged; overlapping
+    //   labels that lead to different successors are an error.
+    // - if there's no default successor, the labels must cover the full alphabet.
+    fn check_specification(&mut self) -> Result<(), Error> {
+        let mut i = 0;
+        while i < self.transitions.len() {
+            let mut j = i + 1;
+            let mut merged = false;
+            while j < self.transitions.len() {
+                let (set_i, next_i) = self.transitions[i];
+                let (set_j, next_j) = self.transitions[j];
+                if set_i.inter(&set_j).is_some() {
+                    if next_i != next_j {
+                        return Err(Error::NonDisjointCharSets);
+                    }
+                    self.transitions[i].0 = set_i.union(&set_j).unwrap();
+                    self.transitions.remove(j);
+                    merged = true;
+                } else {
+                    j += 1;
+                }
+            }
+            // the merged label may now overlap labels that were checked before
+            if !merged {
+                i += 1;
+            }
+        }
+        if self.default_successor.is_none() && !self.make_partition()?.empty_complement() {
+            return Err(Error::MissingDefaultSuccessor);
+        }
+        Ok(())
+    }
+
     fn cleanup(&mut self) {
         self.choose_default_successor();
         self.remove_transitions_to_default();
@@ -706,7 +740,8 @@ impl<T: Eq + Hash + Clone> AutomatonBuilder<T> {
     ///
     /// Construct an automaton
     /// - fails if a state `s` has non-deterministic transitions,
-    ///   i.e., if two distinct transitions from s have non-disjoint labels (i.e., character sets).
+    ///   i.e., if two transitions from s have non-disjoint labels (i.e., character sets)
+    ///   and different successors.
     /// - fails if a state `s` has a default successor but its transitions
     ///   already cover the full alphabet.
     /// - fails if a state `s` doesn't have a default successor but its
@@ -717,6 +752,7 @@ impl<T: Eq + Hash + Clone> AutomatonBuilder<T> {
         let mut num_final_states = 0;
         let mut state_array = Vec::with_capacity(n);
         for (i, s) in self.states.iter_mut().enumerate() {
+            s.check_specification()?;
             s.cleanup();
             let p = s.make_partition()?;
             if s.default_successor.is_some() && p.empty_complement() {
